@@ -528,6 +528,13 @@ pub fn random_rich_grammar(rng: &mut Rng, name: &str) -> (Value, Option<String>)
             s(")"),
         ])),
     ));
+    // member access with a context-specific reserved-word set for the property name
+    let with_reserved = use_word && rng.chance(2, 3);
+    if rng.chance(2, 3) {
+        let prop = if with_reserved { json!({"type":"RESERVED","context_name":"prop","content": sym("id")}) } else { sym("id") };
+        rules.push(("member".into(), call_prec(seq(vec![field("left", sym("_expression")), s("."), field("key", prop)]))));
+        expr_alts.push(sym("member"));
+    }
     rules.push(("args".into(), seq(vec![sym("_expression"), rep(seq(vec![s(","), sym("_expression")]))])));
     rules.push(("paren".into(), seq(vec![s("("), sym("_expression"), s(")")])));
 
@@ -535,9 +542,11 @@ pub fn random_rich_grammar(rng: &mut Rng, name: &str) -> (Value, Option<String>)
     let mut stmt_alts = vec![sym("block"), sym("expr_stmt"), sym("if_stmt")];
     let n_stmt = rng.range(3, 8);
     let mut kws: Vec<&str> = kw_pool.to_vec();
+    let mut used_kws: Vec<String> = vec!["if".to_string(), "else".to_string()];
     for i in 0..n_stmt {
         let kw = kws.remove(rng.below(kws.len()));
         let rname = format!("{kw}_stmt");
+        used_kws.push(kw.to_string());
         let mut ms = vec![s(kw)];
         if !externals.is_empty() && rng.chance(1, 3) {
             ms.push(opt(sym(&externals[rng.below(externals.len())])));
@@ -604,10 +613,23 @@ pub fn random_rich_grammar(rng: &mut Rng, name: &str) -> (Value, Option<String>)
     if named_prec {
         g["precedences"] = json!([prec_names.iter().rev().map(|p| json!({"type":"STRING","value":p})).collect::<Vec<_>>()]);
     }
+    if with_reserved {
+        // a global reserved-word set and a smaller one for property names
+        let nglob = rng.range(1, used_kws.len());
+        let glob: Vec<Value> = used_kws[..nglob].iter().map(|k| s(k)).collect();
+        let nprop = rng.below(nglob + 1);
+        let prop: Vec<Value> = used_kws[..nprop].iter().map(|k| s(k)).collect();
+        g["reserved"] = json!({"global": glob, "prop": prop});
+    }
     let scanner = if externals.is_empty() {
         None
     } else {
-        g["externals"] = Value::Array(externals.iter().map(|e| sym(e)).collect());
+        let mut ext: Vec<Value> = externals.iter().map(|e| sym(e)).collect();
+        if rng.chance(1, 3) {
+            // a token that is both internal and external (the stub scanner never produces it)
+            ext.push(s(";"));
+        }
+        g["externals"] = Value::Array(ext);
         Some(format!(
             "#include \"tree_sitter/parser.h\"\nvoid *tree_sitter_{n}_external_scanner_create(void) {{ return 0; }}\nvoid tree_sitter_{n}_external_scanner_destroy(void *p) {{ (void)p; }}\nunsigned tree_sitter_{n}_external_scanner_serialize(void *p, char *b) {{ (void)p; (void)b; return 0; }}\nvoid tree_sitter_{n}_external_scanner_deserialize(void *p, const char *b, unsigned n) {{ (void)p; (void)b; (void)n; }}\nbool tree_sitter_{n}_external_scanner_scan(void *p, TSLexer *l, const bool *v) {{ (void)p; (void)l; (void)v; return false; }}\n",
             n = name
